@@ -8,6 +8,7 @@ CONTRACTS = (['bitcoinlib.transactions.Transaction.signature_segwit[in%d-out%d-s
                 for st in ('sig_pubkey', 'p2sh_multisig')]
              + ['bitcoinlib.transactions.Transaction.signature_hash[dispatch-tx_%s-arg_%s]' % ab for ab in
                 [('segwit', None), ('segwit', 'segwit'), ('segwit', 'p2sh-segwit'), ('segwit', 'legacy'), ('legacy', None), ('legacy', 'legacy')]]
+             + ['bitcoinlib.transactions.Transaction.raw[legacy-anyindex-in%d-sign%d]' % (a, c) for a in (1, 2, 3) for c in range(a)]
              + ['bitcoinlib.encoding.varstr', 'bitcoinlib.encoding.int_to_varbyteint'] + _script_code())
 LEVEL = 'proof'
 LEVEL_TEXT = ('Transaction.signature_segwit is verified against the BIP143 preimage (every hash-type byte) and Transaction.raw(sign_id, SIGHASH_ALL, '
@@ -15,7 +16,7 @@ LEVEL_TEXT = ('Transaction.signature_segwit is verified against the BIP143 preim
               'any length, version, locktime), and Transaction.signature_hash dispatch (which preimage is hashed for which witness type). '
               'BOUNDED in the NUMBER of inputs/outputs: one contract case per count (1..3 inputs x 0..3 outputs x every signed index), loops '
               'unrolled; counts beyond that (and CompactSize count boundaries) rest on the uniform loop body and on C18 for the count prefix. '
-              'One BIP143 defect (SINGLE/NONE swapped) was repaired; the varstr(00) finding propagates here and is pinned exactly.')
+              'The legacy selection of the signed input is also verified for EVERY labelling of the inputs by distinct 32-bit index_n values (the label asked for is only equal to, not the same object as, the stored label: int identity is modelled as implementation-defined outside -5..256). One BIP143 defect (SINGLE/NONE swapped) was repaired; the varstr(00) finding propagates here and is pinned exactly.')
 LEVEL_NOTE = ('SHA-256 uninterpreted; spec/sighash.py is the statement of consensus (BIP143 text, developer reference). The script code per input kind is '
               'verified separately on Input.update_scripts (P2PKH / P2WPKH / P2SH-P2WPKH with one key; P2SH, P2WSH, P2SH-P2WSH multisig with 2 and 3 keys): '
               'the preimage contracts take the stored script as given, the update_scripts contracts show it is the script consensus expects. Object state left by earlier calls is covered only by native stateful contract evaluation (earlier call + in-place edit).')
